@@ -83,7 +83,7 @@ def qbits_scenario(prop, kn, sym, alpha_kind, use_ste):
     npos = ip.truth(SBool(n > 0))
     if npos:
       k, p, lo, hi, spec = qbits_spec(x.e, n, integer, kn, sym, scale)
-      ip.assume(z3.And(z3.ToReal(RND(p)) - p <= half(), p - z3.ToReal(RND(p)) <= half()))
+      rnd_axiom(ip, p)
       s.vars.update({"p": p, "k": k})
       s.replay["format"] = {"unit": scale * P(integer - n), "lo": R(lo), "hi": R(hi), "surrogate": "identity"}
       s.claim("code", ret == spec)
@@ -119,7 +119,7 @@ def qbits_scenario(prop, kn, sym, alpha_kind, use_ste):
         ret2 = Q.value(r2)
         if npos:
           p2 = x2.e * P(n - integer)
-          ip.assume(z3.And(z3.ToReal(RND(p2)) - p2 <= half(), p2 - z3.ToReal(RND(p2)) <= half()))
+          rnd_axiom(ip, p2)
           k2 = clipz(RND(p2), lo, hi)
           s.mono.extend([(z3.ToReal(k), z3.ToReal(k2), scale * P(integer - n)), (x.e, x2.e, P(n - integer))])
         s.claim("mono", z3.Implies(x.e <= x2.e, ret <= ret2))
@@ -138,7 +138,8 @@ def qbits_scenario(prop, kn, sym, alpha_kind, use_ste):
 
 # ------------------------------------------------- generic clause generator
 def rnd_axiom(ip, p):
-  ip.assume(z3.And(z3.ToReal(RND(p)) - p <= half(), p - z3.ToReal(RND(p)) <= half()))
+  from pyvc import lib as L
+  ip.assume(L.rnd_axiom_formula(p))
 
 
 def generic_scenario(prop, build, idem=True, enclosed=True):
